@@ -40,6 +40,12 @@ def writer_name(fmt):
     return {"hdf5": "to_hdf5", "csv": "to_csv", "pandas": "to_pandas", "csv_dict": "to_csv_dict", "pandas_dict": "to_pandas_dict"}[fmt]
 
 
+def gmap_units(loc):
+    """Genetic maps are exported in Morgans or centiMorgans, depending on the location written to (and read back in the same unit)."""
+    import zlib
+    return "cM" if zlib.crc32(repr(tuple(loc)).encode()) & 1 else "M"
+
+
 def reader_name(fmt):
     return {"hdf5": "from_hdf5", "csv": "from_csv", "pandas": "from_pandas", "csv_dict": "from_csv_dict", "pandas_dict": "from_pandas_dict"}[fmt]
 
@@ -102,14 +108,14 @@ def write(store, o, key, st, fmt, loc):
         if fam == "bvmat":
             o.to_csv(p, unscale=True)
         elif fam == "gmap":
-            o.to_csv(p, vrnt_genpos_units="M")
+            o.to_csv(p, vrnt_genpos_units=gmap_units(loc))
         else:
             o.to_csv(p)
     elif fmt == "pandas":
         if fam == "bvmat":
             store.frames[loc] = o.to_pandas(unscale=True)
         elif fam == "gmap":
-            store.frames[loc] = o.to_pandas(vrnt_genpos_units="M")
+            store.frames[loc] = o.to_pandas(vrnt_genpos_units=gmap_units(loc))
         else:
             store.frames[loc] = o.to_pandas()
     elif fmt == "csv_dict":
@@ -144,12 +150,12 @@ def read(store, ent, loc):
     if fmt == "csv":
         p = store.path(loc[1], ".csv")
         if fam == "gmap":
-            return cls.from_csv(p, vrnt_genpos_units="M", **ext)
+            return cls.from_csv(p, vrnt_genpos_units=gmap_units(loc), **ext)
         return cls.from_csv(p)
     if fmt == "pandas":
         df = store.frames[loc]
         if fam == "gmap":
-            return cls.from_pandas(df, vrnt_genpos_units="M", **ext)
+            return cls.from_pandas(df, vrnt_genpos_units=gmap_units(loc), **ext)
         return cls.from_pandas(df)
     if fmt == "csv_dict":
         return cls.from_csv_dict(store.frames[loc], model_name=o.model_name, hyperparams=o.hyperparams)
